@@ -26,7 +26,7 @@ def classes(out):
 
 
 def run_check(wt, prop):
-    r = sh("VERIF_SEED=%s VERIF_REPO=%s /verif/check %s --tier quick" % (seed, wt, prop), timeout=7200)
+    r = sh("VERIF_MAX_REPLAYS=400 VERIF_SEED=%s VERIF_REPO=%s /verif/check %s --tier quick" % (seed, wt, prop), timeout=7200)
     viol = sum(1 for l in r.stdout.splitlines() if l.startswith("VIOLATION"))
     err = any(l.startswith("CHECK-ERROR") for l in r.stdout.splitlines()) or r.returncode not in (0, 1)
     return viol, classes(r.stdout), err
@@ -62,7 +62,9 @@ def one(sd):
         base = "HEAD"
         if sh("git -C %s apply %s" % (wt, patch)).returncode != 0:
             sh("git -C %s reset -q --hard" % wt)
-            if sh("git -C %s apply --3way %s" % (wt, patch)).returncode != 0:
+            # (a 3-way merge can silently combine a property-preserving refactoring with a later repair into code that has lost the
+            #  repair - e.g. two definitions of the same method - so benign changes are never merged, only applied or taken to their base)
+            if kind == "benign" or sh("git -C %s apply --3way %s" % (wt, patch)).returncode != 0:
                 sh("git -C %s reset -q --hard" % wt)
                 base = meta.get("repo_head")
                 sh("git -C %s checkout -q --detach %s" % (wt, base))
